@@ -297,7 +297,7 @@ PROPERTY = Property(
           "means; distinct by (fitness table, sizes, flags, seed)"),
     obligations=[
         Obligation("select", run_select, strategy=select_strategy,
-                   examples={"quick": 20, "thorough": 600}, shards={"quick": 12, "thorough": 16},
+                   examples={"quick": 20, "thorough": 150}, shards={"quick": 12, "thorough": 16},
                    shrink_budget={"quick": 80, "thorough": 400}),
         Obligation("helper_saves_elite", run_helper, strategy=helper_strategy,
                    examples={"quick": 12, "thorough": 150}, shards={"quick": 4, "thorough": 16},
